@@ -541,6 +541,8 @@ def judge(c, e, mode, must=1):
         bad.append("error status with an EMPTY message")
     if c.get("view") == "CHANGED":
         bad.append("session view changed")
+    if c.get("gone") not in (None, "0"):
+        bad.append("a node that existed before the call is gone (CG_MODE_WRITE is append-only: %s node(s))" % c.get("gone"))
     if c.get("sel") == "CHANGED" and c.get("st") not in (None, "0"):
         bad.append("selection state changed (current position / configuration)")
     if c.get("sel") == "UNSET" and c.get("st") not in (None, "0") and not NAVIGATION.match(e["fn"]):
@@ -662,7 +664,7 @@ def select_cases(entries, rng, tier, frac_entries=1.0, all_classes=True, only_va
                 # the tree digest reads them back) as it was on BOTH back ends, and the sampled HDF5 passes may skip it
                 out += [(i, v) for v in range(len(isb)) if e["variants"][v]["must"] != 0 or v == 0]
             continue
-        if frac_entries < 1.0 and rng.random() > frac_entries:
+        if frac_entries < 1.0 and rng.random() > frac_entries and not re.search(r"delete", e["fn"]):
             continue
         out.append((i, 0))
         if only_valid:
@@ -881,11 +883,15 @@ def run(ck):
                     valid_ok.setdefault(fn, set()).add(cfg)
                 if c.get("out") != "ok" and not c.get("openfail"):
                     observations.setdefault("valid-call:" + fn, {"what": san_summary(c), "config": cfg})
-                # whatever the reason: a call that returns an error must leave the view, the selection state and the file alone
-                if c.get("st") not in (None, "0") and c.get("out") == "ok" and not c.get("openfail"):
-                    w0 = [x for x in judge(c, e, MODES[mode], 0) if "hanged" in x or "CHANGED" in x]
+                # whatever the reason: a call that returns an error must leave the view, the selection state and the file alone;
+                # and in CG_MODE_WRITE no call, successful or not, removes a node that existed
+                gone = c.get("gone") not in (None, "0")
+                if (c.get("st") not in (None, "0") or gone) and c.get("out") == "ok" and not c.get("openfail"):
+                    w0 = [x for x in judge(c, e, MODES[mode], 0) if "hanged" in x or "CHANGED" in x or "gone" in x]
+                    if c.get("st") == "0":
+                        w0 = [x for x in w0 if "gone" in x]
                     if w0:
-                        raw.append((fn, dict(var, cls="valid", param="call"), ["the call with the VALID arguments failed (status %s)" % c.get("st")] + w0, st,
+                        raw.append((fn, dict(var, cls="valid", param="call"), ["the call with the VALID arguments returned status %s" % c.get("st")] + w0, st,
                                     {"level": "inv", "config": cfg, "backend": b, "state": st, "mode": mode, "entry": c["name"], "variant": 0, "desc": "valid arguments",
                                      "what": w0, "observed": {k: c.get(k) for k in ("st", "msg", "view", "sel", "tree", "file", "out")}}))
                 # wrong open mode: a documented writer on a READ-mode handle must be refused
@@ -906,7 +912,7 @@ def run(ck):
             w = judge(c, e, MODES[mode], var["must"])
             if var["must"] == 0:
                 # a probe: it may be a valid index.  Only a sanitizer report counts, or a change although the call was refused
-                w = [x for x in w if x.startswith("sanitizer")] + ([x for x in w if "hanged" in x or "CHANGED" in x] if c.get("st") not in (None, "0") else [])
+                w = [x for x in w if x.startswith("sanitizer") or "is gone" in x] + ([x for x in w if "hanged" in x or "CHANGED" in x] if c.get("st") not in (None, "0") else [])
             if w and (var["must"] or var["must"] == 0):
                 wit = {"level": "inv", "config": cfg, "backend": b, "state": st, "mode": mode, "entry": c["name"], "variant": c["v"], "desc": var["desc"],
                        "what": w, "observed": {k: c.get(k) for k in ("st", "msg", "view", "sel", "tree", "file", "out")}, "stderr": c.get("stderr", [])[:6],
@@ -1011,7 +1017,7 @@ def run(ck):
                             var = e["variants"][c["v"]]
                             w = judge(c, e, MODES[mode], var["must"])
                             if var["must"] == 0:
-                                w = [x for x in w if x.startswith("sanitizer")] + ([x for x in w if "hanged" in x or "CHANGED" in x] if c.get("st") not in (None, "0") else [])
+                                w = [x for x in w if x.startswith("sanitizer") or "is gone" in x] + ([x for x in w if "hanged" in x or "CHANGED" in x] if c.get("st") not in (None, "0") else [])
                             if w:
                                 key = finding_key(e["fn"], var, w, st, F, claims, frozenset(), e["doc"])
                                 if ck.finding(key, {"level": "inv", "config": "%s/%s/%s" % (b, st, mode), "backend": b, "state": st, "mode": mode, "entry": c["name"],
@@ -1070,7 +1076,7 @@ def replay(ck, path):
                 continue
             w = judge(c, e, MODES[mode], var["must"])
             if var["must"] == 0:      # a value that may be legal: only a sanitizer report, or a change although the call was refused
-                w = [x for x in w if x.startswith("sanitizer")] + ([x for x in w if "hanged" in x or "CHANGED" in x] if c.get("st") not in (None, "0") else [])
+                w = [x for x in w if x.startswith("sanitizer") or "is gone" in x] + ([x for x in w if "hanged" in x or "CHANGED" in x] if c.get("st") not in (None, "0") else [])
             det.append({"variant": var["desc"], "what": w, "observed": {k: c.get(k) for k in ("st", "msg", "view", "sel", "tree", "file", "out")}, "stderr": c.get("stderr", [])[:5]})
             fails = fails or bool(w)
     elif r.get("level") == "uac":
